@@ -150,6 +150,7 @@ type ReleaseEvent struct {
 // World is one simulated cluster plus one running plugin instance.
 type World struct {
 	mu     sync.Mutex
+	delMu  sync.Mutex
 	Kube   *kubefake.Clientset
 	Galaxy *galaxyfake.Clientset
 	Ext    *extfake.Clientset
@@ -421,15 +422,23 @@ func (w *World) UpdatePod(ns, name string, f func(p *corev1.Pod)) bool {
 
 // DeletePod removes a pod from truth and queues the delete event.
 func (w *World) DeletePod(ns, name string) bool {
+	return w.DeletePodUID(ns, name) != ""
+}
+
+// DeletePodUID removes the pod that currently has the name and returns its UID ("" if none). Serialised so
+// that concurrent callers each delete (and report) a distinct incarnation.
+func (w *World) DeletePodUID(ns, name string) string {
+	w.delMu.Lock()
+	defer w.delMu.Unlock()
 	old := w.GetPod(ns, name)
 	if old == nil {
-		return false
+		return ""
 	}
 	if err := w.Kube.Tracker().Delete(corev1.SchemeGroupVersion.WithResource("pods"), ns, name); err != nil {
-		return false
+		return ""
 	}
 	w.queue(Event{Res: "pods", Kind: Delete, Old: old})
-	return true
+	return string(old.UID)
 }
 
 // SetStatefulSet creates/updates (replicas>=0) or deletes (replicas<0) a statefulset in truth, queues the event.
